@@ -402,6 +402,7 @@ fn one_case(sink: &mut Sink, rng: &mut Rng, bin: &str, scratch: &str) {
         })
     };
     let mut req_dirs = vec![];
+    let mut dir_expect: Vec<(String, bool, bool, bool)> = vec![];
     if let Some((_, srules)) = &structure {
         for d in &dirs {
             if dir_hidden(d) {
@@ -416,6 +417,16 @@ fn one_case(sink: &mut Sink, rng: &mut Rng, bin: &str, scratch: &str) {
             let key = d.clone();
             let ms: Vec<bool> = srules.iter().map(|r| glob_matches(&r.scope, if d == "." { "" } else { d })).collect();
             req_dirs.push(format!("{} {} {files} {subdirs} {depth}", enc(&key), if ms.is_empty() { "-".to_string() } else { ms.iter().map(|m| b(*m)).collect::<String>() }));
+            // the property's own terms: limits of the last matching rule, unset fields inherited
+            let (g, _) = structure.as_ref().unwrap();
+            let sel = ms.iter().rposition(|m| *m).map(|i| &srules[i]);
+            let lim = |f: fn(&SFields) -> Option<i64>| sel.and_then(|r| f(&r.f)).or_else(|| f(g));
+            let eff_depth = match sel {
+                Some(r) if r.relative_depth => depth.saturating_sub(base_depth_spec(&r.scope)),
+                _ => depth,
+            };
+            let over = |actual: usize, l: Option<i64>| l.is_some_and(|l| l != -1 && actual as i64 > l);
+            dir_expect.push((key.clone(), over(files, lim(|f| f.max_files)), over(subdirs, lim(|f| f.max_dirs)), over(eff_depth, lim(|f| f.max_depth))));
         }
     }
 
@@ -563,6 +574,28 @@ fn one_case(sink: &mut Sink, rng: &mut Rng, bin: &str, scratch: &str) {
             } else if eff > limit && out.rc == 0 && !flags.warn_only {
                 // in scope by the documented rules, over its limit, yet the run is clean
                 problems.push(format!("key=unknown-language-skipped in-scope file {rel} ({eff} lines, limit {limit}) is skipped and check exits 0"));
+            }
+        }
+        // directories: over a limit of the applicable rule <=> reported failed (or grandfathered)
+        let depth_failed = |d: &str| out.rows.iter().any(|(k, v)| k == &format!("{}:o", enc(d)) && (v.0 == "failed" || v.0 == "grandfathered"));
+        for (d, of, od, odepth) in &dir_expect {
+            for (kind, want, label) in [("f", *of, "file count"), ("d", *od, "sub-directory count")] {
+                let got = out.rows.get(&format!("{}:{kind}", enc(d))).is_some_and(|v| v.0 == "failed" || v.0 == "grandfathered");
+                if want && !got {
+                    problems.push(format!("directory {d}: {label} over the limit of its rule but not reported as failed"));
+                }
+                if !want && got {
+                    problems.push(format!("directory {d}: {label} within the limit of its rule but reported as failed"));
+                }
+            }
+            if *odepth != depth_failed(d) {
+                problems.push(format!("directory {d}: depth {} the limit of its rule but the report says {}", if *odepth { "exceeds" } else { "is within" }, if depth_failed(d) { "failed" } else { "nothing" }));
+            }
+        }
+        for k in out.rows.keys().filter(|k| k.ends_with(":f") || k.ends_with(":d") || k.ends_with(":o")) {
+            let path: String = k.rsplit_once(':').unwrap().0.split('.').filter_map(|h| u32::from_str_radix(h, 16).ok()).filter_map(char::from_u32).collect();
+            if !dir_expect.iter().any(|x| x.0 == path) {
+                problems.push(format!("directory {path} is reported although it is hidden, excluded or structure checks are off"));
             }
         }
         for k in out.rows.keys().filter(|k| k.ends_with(":c")) {
